@@ -1013,7 +1013,7 @@ func (ft *FT) loopHead(li *loopInfo, st *State, guard Term, phiVals map[*ssa.Phi
 	}
 	li.headState = hs.clone()
 	li.headOv = hov
-	if ft.con != nil && ft.con.HasMod && !li.wall {
+	if ft.con != nil && ft.con.HasMod && !ft.con.Trusted && !li.wall {
 		byKey, whole, all := ft.frameTargets()
 		if !all {
 			for _, k := range sortedKeys(li.wkeys) {
@@ -1074,7 +1074,7 @@ func (ft *FT) loopBack(li *loopInfo, from *ssa.BasicBlock, st *State) {
 		li.con = &LoopContract{}
 	}
 	ctx := ft.loopCtx(li, st, ov, li.preState)
-	if ft.con != nil && ft.con.HasMod && !li.wall {
+	if ft.con != nil && ft.con.HasMod && !ft.con.Trusted && !li.wall {
 		byKey, whole, all := ft.frameTargets()
 		if !all {
 			for _, k := range sortedKeys(li.wkeys) {
